@@ -119,7 +119,18 @@ PIPES = [
     "str(cn) | len", "rand(l) if l else zero", "d | map((k, v) => k) | sorted",
     "get(data, 'rows') | len", "data['rows'] | len", "table[one] | len", "max(l, big) | len", "[big, big] | reduce((p, q) => q) | len",
     "get(jd, one)", "jd[one]", "get(jd, 'x', zero)",
+    # (28..) lambdas that concatenate: the operands of + are arguments too
+    "nn | reduce((p, q) => p + q) | len", "nn | map(r => r + [zero]) | len", "sorted(nn, r => len(r + [one])) | len",
+    "nn | filter(r => len(r + r) > zero) | len", "x = nn[zero] + [one]\ny = nn[one] + nn[zero]\nlen(x) + len(y)",
+    "cn | reduce((p, q) => p + q) | sum", "u = nn[zero]\nv = u + [one] + u\nw = u\nw += [one]\nu == nn[zero]",
+    # (35..) results of non-mutators kept in variables and handed to further non-mutators: the variable keeps its value (result must be True)
+    "x = l | sorted\ny = x | reversed\nz = x | shuffle\nx == (l | sorted)",
+    "t = nn | map(r => sorted(r))\nu = t | map(r => reversed(r))\nt == (nn | map(r => sorted(r)))",
+    "x = l | filter(v => True)\ny = sorted(x, v => zero - v)\nx == l",
+    "x = l | reversed\ny = x | sorted\nw = [x] | map(r => sorted(r))\nx == (l | reversed)",
+    "x = cn | sorted(r => len(r))\ny = x | reversed\nz = x | map(r => reversed(r))\nx == [[3], [1, 2]]",
 ]
+MUST_BE_TRUE = set(range(35, 40)) | {34}
 if isinstance(hlib.PARAM, dict) and "pipe" in hlib.PARAM:
     prewarm(PIPES[hlib.PARAM["pipe"]])
 
@@ -149,5 +160,7 @@ def pipeline(a: int, b: int, c: int, n: int, d1: int, d2: int, d3: int) -> None:
     assert (l, nn, d, cn, cd) == snap, "pipeline of non-mutating builtins modified a host object"
     assert len(big) == big_len and data['rows'] is big and table[1] is big, "a host list longer than the cap was modified by a non-mutating builtin"
     assert list(jd) == jd_keys, "a host dict with non-string keys was re-keyed by a read"
-    assert out[0] == 'ok' or hlib.PARAM["pipe"] >= 25, "pipeline failed: %s" % (out[1].__name__ if out[0] == 'err' else '')
+    assert out[0] == 'ok' or 25 <= hlib.PARAM["pipe"] <= 27 or (n == 0 and hlib.PARAM["pipe"] in (28, 33)), "pipeline failed: %s" % (out[1].__name__ if out[0] == 'err' else '')
+    if hlib.PARAM["pipe"] in MUST_BE_TRUE:
+        assert out[1] is True, "a value kept in a variable changed when it was handed to a non-mutating builtin / operator"
     hlib.done()
